@@ -226,7 +226,10 @@ func (f *SexpField) SexpString(ps *PrintState) string {
 	str := " (" + hash.TypeName + " "
 
 	for i, key := range hash.KeyOrder {
-		val, err := hash.HashGet(nil, key)
+		// look the key up as it is: HashGet treats a dot-symbol key as
+		// a path and needs an interpreter for that, so printing
+		// (field a.b x:) panicked with 'MakeSymbol called with nil env'.
+		val, err := hash.HashGetDefault(hash.Env, key, SexpNull)
 		if err == nil {
 			switch s := key.(type) {
 			case *SexpStr:
@@ -242,7 +245,7 @@ func (f *SexpField) SexpString(ps *PrintState) string {
 				str += val.SexpString(nil) + "    "
 			}
 		} else {
-			panic(err)
+			str += key.SexpString(nil) + ":? "
 		}
 	}
 	if len(hash.Map) > 0 {
